@@ -20,7 +20,9 @@ RULE = (
 )
 ASSUMPTIONS = ["the '%XX upper-case' rule is not applied inside the host (C16 lower-cases hosts and keeps IPv6 zone ids verbatim)", "encoded=True entry points are outside this property"]
 
-REPS = ["é", "€", "😀", "\ud83d", "\udc80", "\x80", "￿"]
+from ..gen import BOUNDARY_CHARS
+
+REPS = ["é", "€", "😀", "\ud83d", "\udc80", "\x80", "￿"] + BOUNDARY_CHARS[::7]
 CONTEXTS = ["{}", "%{}", "%4{}", "a{}b"]
 
 
@@ -30,6 +32,9 @@ def plan(tier, seed):
     n = 8
     for s in range(n):
         jobs.append({"variant": "c" if s % 2 else "py", "part": "kernel", "shard": s // 2, "nshards": n // 2, "params": {}})
+    if thorough:
+        for s in range(16):
+            jobs.append({"variant": "c" if s % 2 else "py", "part": "allcp", "shard": s // 2, "nshards": 8, "params": {}})
     nr = 16 if thorough else 4
     for s in range(nr):
         jobs.append({"variant": "c" if s % 2 else "py", "part": "random", "shard": s, "nshards": nr, "params": {"n": 500000 if thorough else 12000}})
@@ -138,6 +143,21 @@ def run(ctx):
                     judge(ctx, entry, op, (entry, cls, cx))
         ctx.sample({"entry": "join.base_escaped", "op": dict(entry_ops("%4\udc80"))["join.base_escaped"]})
         ctx.notes["kernel_chars"] = len(chars)
+        return
+    if ctx.part == "allcp":
+        n = 0
+        for cp in range(0x80, 0x110000):
+            if not ctx.mine(cp):
+                continue
+            ch = chr(cp)
+            for t in (ch, "%" + ch + ch):
+                for entry, op in (("ctor.all", {"op": "ctor", "s": f"http://{t}:{t}@h/{t}?{t}={t}#{t}"}), ("ctor.rel", {"op": "ctor", "s": f"a{t}/{t}"}),
+                                  ("build.all", {"op": "build", "kw": {"scheme": "http", "host": "h", "user": t, "password": t, "path": "/" + t, "query": {"t": "dict", "v": [[t, t]]}, "fragment": t}}),
+                                  ("with_query_str", {"op": "mod", "base": {"op": "ctor", "s": "http://h/p"}, "m": "with_query", "args": [t]}),
+                                  ("div", {"op": "div", "base": {"op": "ctor", "s": "http://h/p"}, "arg": t})):
+                    judge(ctx, entry, op, (entry, "allcp", cp >> 12))
+            n += 1
+        ctx.notes["allcp"] = n
         return
     og = OpGen(ctx.rng, surrogates=True)
     n = ctx.params["n"]
